@@ -259,6 +259,46 @@ var Rows = []*Row{
 				return model.Cold([]model.In{{K: 'N', V: x}, {K: 'N', V: x + 10}, {K: 'C'}})
 			})
 		}},
+	{Name: "MergeMap", Variants: v4, Params: none, Pos: []string{"MergeMap.project"}, Stateful: true,
+		// with synchronous cold inners, merging degenerates to concatenation: each
+		// inner runs to its end inside the outer Next
+		Build: func(v string, p []int, e *Env) Stage {
+			const pos = "MergeMap.project"
+			pr := func(x int) obsI { return ro.Just(x, x+10) }
+			switch v {
+			case "":
+				return st(ro.MergeMap(func(x int) obsI { e.Hit(pos, nil, false); return pr(x) }))
+			case "WithContext":
+				return st(ro.MergeMapWithContext(func(c ctxT, x int) obsI { e.Hit(pos, c, true); return pr(x) }))
+			case "I":
+				return st(ro.MergeMapI(func(x int, i int64) obsI { e.Hit(pos, nil, false); e.SawIdx(pos, i); return pr(x) }))
+			default:
+				return st(ro.MergeMapIWithContext(func(c ctxT, x int, i int64) (ctxT, obsI) {
+					e.Hit(pos, c, true)
+					e.SawIdx(pos, i)
+					return e.Wrap(pos, c), pr(x)
+				}))
+			}
+		},
+		Model: func(p []int, m *MEnv) model.Operator {
+			return model.MergeMapCold(func(v any, i int) model.Obs {
+				m.Hit("MergeMap.project")
+				x := v.(int)
+				return model.Cold([]model.In{{K: 'N', V: x}, {K: 'N', V: x + 10}, {K: 'C'}})
+			})
+		}},
+	{Name: "MergeMapIdx", Variants: []string{"I", "IWithContext"}, Params: none, Stateful: true,
+		Build: func(v string, p []int, e *Env) Stage {
+			if v == "I" {
+				return st(ro.MergeMapI(func(x int, i int64) obsI { return ro.Just(x*10 + int(i)) }))
+			}
+			return st(ro.MergeMapIWithContext(func(c ctxT, x int, i int64) (ctxT, obsI) { return c, ro.Just(x*10 + int(i)) }))
+		},
+		Model: func(p []int, m *MEnv) model.Operator {
+			return model.MergeMapCold(func(v any, i int) model.Obs {
+				return model.Cold([]model.In{{K: 'N', V: v.(int)*10 + i}, {K: 'C'}})
+			})
+		}},
 	// ---------------------------------------------------------------- filtering
 	{Name: "Filter", Variants: v4, Params: none, Pos: []string{"Filter.pred"}, Stateful: true,
 		Build: func(v string, p []int, e *Env) Stage {
@@ -671,6 +711,23 @@ var Rows = []*Row{
 			return model.While(func(i int) bool { m.Hit("While.cond"); return i < p[0] })
 		}},
 	// ---------------------------------------------------------------- combining with cold companions
+	{Name: "MergeWith", Variants: []string{"MergeWith", "MergeWithN"}, Params: [][]int{{0}, {1}, {2}, {5}},
+		// with synchronous cold companions: the source plays first, then each companion
+		Build: func(v string, p []int, e *Env) Stage {
+			cs := companions(p[0])
+			if v == "MergeWithN" {
+				switch p[0] {
+				case 1:
+					return st(ro.MergeWith1(cs[0]))
+				case 2:
+					return st(ro.MergeWith2(cs[0], cs[1]))
+				case 5:
+					return st(ro.MergeWith5(cs[0], cs[1], cs[2], cs[3], cs[4]))
+				}
+			}
+			return st(ro.MergeWith(cs...))
+		},
+		Model: func(p []int, m *MEnv) model.Operator { return model.MergeWithCold(companionsModel(p[0])...) }},
 	{Name: "ConcatWith", Variants: []string{""}, Params: [][]int{{0}, {1}, {2}}, Waits: true,
 		Build: func(v string, p []int, e *Env) Stage { return st(ro.ConcatWith(companions(p[0])...)) },
 		Model: func(p []int, m *MEnv) model.Operator { return model.ConcatWith(companionsModel(p[0])...) }},
